@@ -4,7 +4,9 @@
    it, yes/no vs. BOOL, a string whose decoded bytes agree — for every target width, text encoding and
    flavor decode function; and a struct target is a function of the per-field value sequences only
    (so the same struct definition serves both formats once the field values agree).
-   NOT proved: the container walks of the text and binary deserializers (see C02.v / C04.v) and the
+   The binary container walks and their independence of the encoding choices: Props/C10_walk.v (binary
+   half); the text walks: Props/C02_walk.v.
+   NOT proved: the link between the text and the binary specification on a common document, and the
    date / rgb / float clauses (Date: C13 proves parse(fmt x) = from_binary(to_binary x); rgb and floats
    are carried by the oracle stream of props/C10.py). *)
 From JV Require Import Bytes Scalar Derive Serde.
